@@ -1352,14 +1352,15 @@ _AG_NUMERIC_ONLY = {"superorthogonal": "simple-update gauging iterates to a tole
 
 def _ag_params():
     out = []
-    for geom in ("path3", "ring3"):
+    for geom in ("pair2", "path3", "ring3"):
         for opt in AG_OPTS:
             for cap in (4, 6, None):
-                q = cap == 4 and geom == "path3" and opt in ("local-early-nocanon", "local-late-nocanon", "local-early-basic", "projector-nocanon", "su-nocanon")
+                q = cap == 4 and geom == "pair2" and opt in ("local-early-nocanon", "local-late-nocanon", "local-early-basic", "projector-nocanon", "su-nocanon")
                 out.append({"geom": geom, "opt": opt, "cap": cap, "_tiers": _Q if q else _T})
     return out
 
 
+GRAPHS["pair2"] = (2, [(0, 1)], {})
 GRAPHS["path3"] = (3, [(0, 1), (1, 2)], {})
 GRAPHS["ring3"] = (3, [(0, 1), (1, 2), (0, 2)], {})
 
@@ -1393,12 +1394,19 @@ def ag_compress_cap(mk, geom, opt, chi):
     no two tensors share more than chi"""
     mk.encodes(agc.tensor_network_ag_compress, agc.tensor_network_ag_compress_local_early, agc.tensor_network_ag_compress_local_late,
                agc.tensor_network_ag_compress_projector, agc.tensor_network_ag_compress_superorthogonal, agc.tensor_network_ag_compress_l2bp)
-    if mk.sym and opt in ("superorthogonal", "l2bp", "projector", "local-early", "local-late"):
-        return _numeric_only(mk, "iterates to a numerical tolerance / gauges by simple update")
+    if mk.sym and opt in ("superorthogonal", "l2bp", "l2bp-nocanon", "projector", "local-early", "local-late"):
+        return _numeric_only(mk, "iterates to a numerical tolerance / gauges by simple update / message square roots")
     tn, out, sites = two_layer_tn(mk, geom, kind="real", numkind="cplx")
     with shapes_only():
         res = agc.tensor_network_ag_compress(tn, max_bond=chi, cutoff=0.0, site_tags=sites, **AG_OPTS[opt])
-    cap_goal(mk, f"tensor_network_ag_compress(max_bond={chi}, cutoff=0.0, {opt})", res, chi)
+    if AG_OPTS[opt].get("lazy"):
+        # the projectors are left uncontracted: the compressed bonds are those between two projector tensors
+        # (the site tensors keep their original bonds to the projectors)
+        proj = qtn.TensorNetwork([t for t in res if not any(ix.startswith("m") for ix in t.inds)])
+        mk.same("two projectors per edge and layer pair", proj.num_tensors, 2 * len(GRAPHS[geom][1]))
+        cap_goal(mk, f"tensor_network_ag_compress(max_bond={chi}, cutoff=0.0, {opt}): projector pairs", proj, chi)
+    else:
+        cap_goal(mk, f"tensor_network_ag_compress(max_bond={chi}, cutoff=0.0, {opt})", res, chi)
     mk.same("outer labels unchanged", sorted(res.outer_inds()), sorted(out))
     if not AG_OPTS[opt].get("lazy"):
         mk.same("one tensor per site", [len(res.tag_map[s]) for s in sites], [1] * len(sites))
